@@ -35,7 +35,7 @@ func init() {
 
 func c06Batches(tier string) int {
 	if tier == "thorough" {
-		return 8
+		return 16
 	}
 	return 2
 }
@@ -509,8 +509,8 @@ func c06Worker(c *core.Collector, x *Ctx) {
 	c.Rule = "per connection a PRNG-determined sequence of terminal messages over every default-registered 0x0xxx/0x1xxx ID, response types and unsupported IDs, both header versions, request serials incl. 0 and 65535, phones with leading zeros, " +
 		"0x0102 with matching / non-matching / too-short bodies, sub-packaged requests (packet 1 first, rest shuffled); pacing: one frame per write, pipelined random segments, mixed; one connection with 66000 pipelined heartbeats (serial wrap). " +
 		"evaluation = one request; non-trivial = request that owes a reply and whose reply was checked; distinct by hash of (connection, id, serial, body)"
-	conns := c.N(16, 32)
-	nreq := c.N(300, 2000)
+	conns := c.N(16, 64)
+	nreq := c.N(300, 3000)
 	wraps := 0
 	if x.Batch == 0 {
 		wraps = c.N(1, 2)
